@@ -42,6 +42,7 @@ func c14Bounds(r *Run) {
 		}
 		return Lin{}, "", false
 	}
+	e.checkWrap = true // the wrap obligations are reported by the R7 rule
 	res := bndReport(r, rule, e, 30)
 	trackedWritersOK(r, rule, e, res)
 }
